@@ -110,3 +110,57 @@ Lemma warm_start_depends_on_history :
   Qeq_bool (fit_V2 (fit_warm P X 1 oA [0; 1] [1; 1])) (fit_V2 (fit_warm P X 1 fresh_obj [0; 1] [1; 1])) = false /\
   Qeq_bool (fit_V2 (fit_method P X 1 oA [0; 1] [1; 1])) (fit_V2 (fit_method P X 1 fresh_obj [0; 1] [1; 1])) = true.
 Proof. cbv zeta. eexists. split; [vm_compute; reflexivity|split; vm_compute; reflexivity]. Qed.
+
+(* ================================================================ Gaussian MFX of lib/fff *)
+Lemma qsum_map2_plus : forall (a b : list Q),
+  length a = length b ->
+  qsum (map2 (fun x y => y + x * x) a b) == qsum b + qsum (map (fun x => x * x) a).
+Proof.
+  induction a as [|x a IH]; intros [|y b] L; try discriminate; cbn [map2 map qsum fold_right]; [lra|].
+  fold (qsum (map2 (fun x y => y + x * x) a b)). fold (qsum b). fold (qsum (map (fun x => x * x) a)).
+  rewrite IH by (cbn in L; lia). ring.
+Qed.
+
+Lemma map2_length {A B C} (f : A -> B -> C) : forall a b, length a = length b -> length (map2 f a b) = length a.
+Proof. induction a as [|x a IH]; intros [|y b] L; try discriminate; cbn; auto. Qed.
+
+Lemma qmean_sqdev : forall z, z <> [] ->
+  qsum (map (fun v => sqdiff v (qsum z / qlen z)) z) / qlen z
+  == qsum (map (fun v => v * v) z) / qlen z - (qsum z / qlen z) * (qsum z / qlen z).
+Proof.
+  intros z H. unfold sqdiff. rewrite qsum_sqdev. assert (P := qlen_pos z H). field. lra.
+Qed.
+
+(* One unconstrained C EM step is the MixedEffectsModel EM step for the one-sample design
+   (X = ones, pinv_X = 1/n): posterior means Z, beta = mean Z, V2 = mean (Z - beta)^2 + mean cvar *)
+Lemma gmfx_step_is_mixed_effects_step : forall x var m0 v0, x <> [] -> length x = length var ->
+  let Z := map2 (gm_mi m0 v0) x var in
+  let cvar := map (gm_vi v0) var in
+  let st := gmfx_step false x var (m0, v0) in
+  fst st == qmean Z /\
+  snd st == qmean (map (fun z => sqdiff z (qmean Z)) Z) + qmean cvar.
+Proof.
+  intros x var m0 v0 Hx L Z cvar st.
+  assert (LZ : length Z = length x) by (apply map2_length; exact L).
+  assert (QZ : qlen Z = qlen x) by (unfold qlen; rewrite LZ; reflexivity).
+  assert (Qc : qlen cvar = qlen x) by (unfold qlen, cvar; rewrite map_length, L; reflexivity).
+  assert (NZ : Z <> []) by (intros E; rewrite E in LZ; destruct x; [congruence|discriminate]).
+  unfold st, gmfx_step. cbn [fst snd]. fold Z. fold cvar.
+  rewrite !Qred_correct. unfold qmean. rewrite QZ, Qc. split; [reflexivity|].
+  rewrite qsum_map2_plus by (unfold cvar; rewrite map_length, LZ; exact L).
+  assert (K := qmean_sqdev Z NZ). rewrite QZ in K. rewrite qlen_map, QZ. rewrite K.
+  assert (P := qlen_pos x Hx). field. lra.
+Qed.
+
+Lemma gm_mi_is_e_mean : forall m0 v0 xi si, gm_mi m0 v0 xi si == e_mean v0 xi si m0.
+Proof. intros. unfold gm_mi, e_mean. assert (si + v0 == v0 + si) by ring. rewrite H. ring. Qed.
+
+(* as coded, the constrained fit pins the mean at 0 - whatever baseline the caller passed *)
+Lemma gmfx_constrained_mean_zero : forall n x var, fst (gmfx_em n true x var) = 0.
+Proof.
+  intros n x var. unfold gmfx_em.
+  assert (G : forall k st, fst st = 0 -> fst (gmfx_iter k true x var st) = 0).
+  { induction k as [|k IH]; intros [m v] H; cbn [gmfx_iter]; [exact H|].
+    apply IH. cbn in H. subst m. reflexivity. }
+  apply G. reflexivity.
+Qed.
